@@ -48,6 +48,10 @@ func gangMenu() []wlItem {
 		{"run-elastic3min1-qb", world.WL{Queue: "qb", MinMember: 1, Pods: pods(3, shG1, world.StRunning, "n1")}},
 		{"run-elastic2min1-qa", world.WL{Queue: "qa", MinMember: 1, Pods: pods(2, shG1, world.StRunning, "n1")}},
 		{"run-single-qa", world.WL{Queue: "qa", Pods: pods(1, shG1, world.StRunning, "n1")}},
+		// elastic gangs with a minimum of TWO: one pod of surplus / already shrunk to the minimum with the
+		// evicted pod still terminating (a victim that is picked again must go as a whole)
+		{"run-elastic3min2-qb", world.WL{Queue: "qb", MinMember: 2, Pods: pods(3, shG1, world.StRunning, "n1")}},
+		{"run-elastic2min2+term-qb", world.WL{Queue: "qb", MinMember: 2, Pods: []world.PodSpec{{Shape: shG1, State: world.StRunning, Node: "n1"}, {Shape: shG1, State: world.StRunning, Node: "n1"}, {Shape: shG1, State: world.StTerminating, Node: "n1"}}}},
 		{"run-sets-a1b1-qb", world.WL{Queue: "qb", MinMember: 2, SubGroups: sgAB, Pods: withSG(pods(2, shG1, world.StRunning, "n1"), "a", "b")}},
 		{"term-single-qa", world.WL{Queue: "qa", Pods: pods(1, shG1, world.StTerminating, "n1")}},
 		// one pod set holds elastic surplus while another is below its own minimum with pending pods
